@@ -13,7 +13,7 @@ owns an instance-level cache)  ∪  (sources compared on a hit).
 '''
 import ast
 
-from ..astutil import txt, call_name, receiver, walk_local, dotted
+from ..astutil import txt, call_name, receiver, walk_local, dotted, calls_in
 from ..cfg import CFG
 from ..loader import AnalysisError
 
@@ -899,3 +899,69 @@ def check_factory_pure(ctx):
                       f'the arguments is the memo self.cache',
                       at=func.where())
     ctx.floor('FACTORY-PURE', n, 2, 'RunTaskFactory.make / copy')
+
+
+# ----------------------------------------------------------- CLOSE-FRESH ---
+
+def check_close_fresh(ctx):
+    """The transitive closure of the dependencies is computed from the
+    CURRENT depends_on / soft_depends_on sets at every call.  Dependencies
+    may be added after a first walk (Task.add_dependency; task_stats walks
+    the graph before the job is complete): a reachability set remembered on
+    a task, in a module-level mapping or behind functools caching can only
+    be validated against the task's OWN direct dependencies and goes stale
+    when a task further down gets a new one."""
+    program = ctx.program
+    start = program.func('valjean.cosette.task:close_dependency_graph')
+    todo, seen = [start], {}
+    while todo:
+        cur = todo.pop()
+        if cur.key in seen:
+            continue
+        seen[cur.key] = cur
+        for call in calls_in(cur.node):
+            cands, how = program.resolve_call(cur, call)
+            if how == 'by-unique-name':
+                continue
+            for cand in cands:
+                if cand.module.name == start.module.name and \
+                        cand.name not in ('__init__',):
+                    todo.append(cand)
+    bad = 0
+    for func in seen.values():
+        program.consulted.add(func.module.relpath)
+        for deco in func.node.decorator_list:
+            if any(w in txt(deco) for w in ('lru_cache', 'cache',
+                                            'memoize')):
+                bad += 1
+                ctx.violated('CLOSE-FRESH', func,
+                             f'{func.name} is memoised with @{txt(deco)[:30]}',
+                             at=func.where(), detail='stale when a '
+                             'dependency is added after the first call')
+        params = set(func.params)
+        for node in walk_local(func.node):
+            tgt = None
+            if isinstance(node, ast.Assign):
+                for cand in node.targets:
+                    if isinstance(cand, ast.Attribute):
+                        tgt = cand
+            elif isinstance(node, ast.Call) and call_name(node) == \
+                    'setattr' and node.args:
+                tgt = node
+            if tgt is None:
+                continue
+            bad += 1
+            ctx.violated('CLOSE-FRESH', func,
+                         f'{func.name}: {txt(node)[:60]} stores a result of '
+                         f'the walk on an object that outlives it',
+                         at=func.where(node),
+                         detail='a remembered reachability set is checked '
+                                'against the direct dependencies of its own '
+                                'task at best: a dependency added to a task '
+                                'further down (add_dependency after '
+                                'task_stats) is never seen from above')
+    if not bad:
+        ctx.holds('CLOSE-FRESH', start,
+                  f'{len(seen)} function(s) of the closure: nothing '
+                  f'remembered between calls', at=start.where(),
+                  nontrivial=False)
